@@ -14,6 +14,8 @@ Extracted (None = pattern not recognised -> `extraction_failed`):
                           registration on the other keys of a multi-key BLPOP) ?
   * refuse_in_tx          do `handle_blpop` / `handle_brpop` answer the null array instead of registering
                           when `conn_id == 0` (called from EXEC) ?
+  * dedup_keys            do `handle_blpop` / `handle_brpop` drop repeated keys (`keys.retain(|k| seen.insert(..))`
+                          or `keys.dedup…`) before registering ?
 """
 import re
 
@@ -33,7 +35,7 @@ def _arm(text, name):
 
 
 def facts(src, strip_comments, fn_body):
-    out = {"wake_batch": None, "notify_per_element": None, "wake_at_push": None, "unregister_all": None, "refuse_in_tx": None}
+    out = {"wake_batch": None, "notify_per_element": None, "wake_at_push": None, "unregister_all": None, "refuse_in_tx": None, "dedup_keys": None}
     bl = strip_comments(src("network/blocking.rs"))
     pw = fn_body(bl, "process_wakeups")
     if pw is not None:
@@ -59,16 +61,20 @@ def facts(src, strip_comments, fn_body):
     wc = fn_body(sv, "wake_client")
     if wc is not None and "send_frame" in wc and ("lpop" in wc and "rpop" in wc):
         out["unregister_all"] = bool(re.search(r"unregister_client\s*\(", wc))
-    rf = []
+    rf, dd = [], []
     for fn in ("handle_blpop", "handle_brpop"):
         hb = fn_body(sv, fn)
         if hb is None or "register_blocked" not in hb:
             rf.append(None)
+            dd.append(None)
             continue
         before = hb[:hb.find("register_blocked")]
         rf.append(bool(re.search(r"if\s+conn_id\s*==\s*0\s*\{\s*return\s+Ok\s*\(\s*RespFrame::null_array\s*\(\s*\)\s*\)", before)))
+        dd.append(bool(re.search(r"keys\s*\.\s*retain\s*\(\s*\|\s*\w+\s*\|\s*\w+\s*\.\s*insert\s*\(", before) or re.search(r"keys\s*\.\s*dedup", before)))
     if None not in rf and len(set(rf)) == 1:
         out["refuse_in_tx"] = rf[0]
+    if None not in dd and len(set(dd)) == 1:
+        out["dedup_keys"] = dd[0]
     return out
 
 
@@ -88,5 +94,6 @@ def generate(src, strip_comments, fn_body, header):
     item("wakeAtPush", "Bool", f["wake_at_push"], "process_normal_command calls self.process_wakeups() after the command that notified", "LPUSH/RPUSH arms with notify_key_ready not recognised")
     item("unregisterAllOnServe", "Bool", f["unregister_all"], "wake_client calls unregister_client after serving", "wake_client not recognised")
     item("refuseBlockingInTx", "Bool", f["refuse_in_tx"], "handle_blpop/handle_brpop answer the null array when conn_id == 0", "handle_blpop/handle_brpop with register_blocked not recognised")
+    item("dedupKeys", "Bool", f["dedup_keys"], "handle_blpop/handle_brpop drop repeated keys before registering", "handle_blpop/handle_brpop with register_blocked not recognised")
     L += ["", "end Ferrous.Gen.Blocking", ""]
     return "\n".join(L)
